@@ -342,6 +342,14 @@ func init() {
 	reg(&StageDef{Name: "RepeatWith", GenP: func(g *Gen, n int) []int { return []int{g.Intn(3) + 1} }, Flags: Flags{Resub: true, Waits: true}, Build: func(e *Env, aux []ro.Observable[int], p []int) func(ro.Observable[int]) ro.Observable[int] {
 		return ro.RepeatWith[int](int64(pi(p, 0, 1)))
 	}})
+	reg(&StageDef{Name: "DoWhile", GenP: func(g *Gen, n int) []int { return []int{g.Intn(3)} }, Flags: Flags{Resub: true, Waits: true}, Build: func(e *Env, aux []ro.Observable[int], p []int) func(ro.Observable[int]) ro.Observable[int] {
+		k := pi(p, 0, 1)
+		return ro.DoWhileI[int](func(i int64) bool { return int(i) < k })
+	}})
+	reg(&StageDef{Name: "While", GenP: func(g *Gen, n int) []int { return []int{g.Intn(3)} }, Flags: Flags{Resub: true, Waits: true}, Build: func(e *Env, aux []ro.Observable[int], p []int) func(ro.Observable[int]) ro.Observable[int] {
+		k := pi(p, 0, 1)
+		return ro.WhileI[int](func(i int64) bool { return int(i) < k })
+	}})
 	// ---------------- utility
 	reg(&StageDef{Name: "Tap", GenP: noP, Build: func(e *Env, aux []ro.Observable[int], p []int) func(ro.Observable[int]) ro.Observable[int] {
 		return ro.Tap(func(x int) { e.Call("Tap.next") }, func(err error) { e.Call("Tap.error") }, func() { e.Call("Tap.complete") })
